@@ -54,17 +54,36 @@ impl CallBound {
             return Ok(());
         }
         let g = G::new(pc.gc.g.n, &pc.gc.g.att_usize());
-        let fams = Fams::new(&g);
+        // graphs of 14-24 arguments: the backtracking reference knows the complete and stable families, so the
+        // bounds whose base is the conflict-free or admissible family are not judged there
+        let fams_for = |g: &G| -> Option<Fams> {
+            if g.n > 13 {
+                Fams::new_medium(g)
+            } else {
+                Some(Fams::new(g))
+            }
+        };
+        if g.n > 13 {
+            if matches!(base_of(enc), "cf" | "adm") {
+                return Ok(());
+            }
+            rec.class("medium-size-graph-14-24-arguments");
+        }
+        let fams = match fams_for(&g) {
+            Some(f) => f,
+            None => return Ok(()),
+        };
         let a = idx(pc.arg, g.n.max(1));
         let kind = kind_for(pc.q, pc.sem);
         let comps = g.components();
-        let per_comp: usize = comps
-            .iter()
-            .map(|c| {
-                let (sub, _) = g.induced(*c);
-                bound_for(kind, enc, &Fams::new(&sub), sub.n)
-            })
-            .sum();
+        let mut per_comp = 0usize;
+        for c in &comps {
+            let (sub, _) = g.induced(*c);
+            match fams_for(&sub) {
+                Some(f) => per_comp += bound_for(kind, enc, &f, sub.n),
+                None => return Ok(()),
+            }
+        }
         let connected = comps.len() <= 1;
         // the property bounds each component; a framework treated as one piece is bounded likewise
         let bound = if connected { per_comp } else { per_comp.max(bound_for(kind, enc, &fams, g.n)) };
@@ -344,10 +363,18 @@ impl Prop for CallBound {
                 }
                 BoundCase::Static(ProblemCase { gc: GraphCase { g, pres }, sem, q, enc_pick, arg, cert })
             });
+        let medium = (crate::checks::statics::medium_strategy(), 0usize..7, 0u8..3, any::<u8>(), any::<u16>(), any::<bool>()).prop_map(|(gc, s, q, enc_pick, arg, cert)| {
+            let q = [Q::SE, Q::DC, Q::DS][q as usize];
+            let mut sem = ALL_SEMS[s];
+            if kind_for(q, sem) == Kind::Gr {
+                sem = [Sem::PR, Sem::ST, Sem::SST, Sem::ID][(enc_pick as usize / 8) % 4];
+            }
+            BoundCase::Static(ProblemCase { gc, sem, q, enc_pick, arg, cert })
+        });
         let dynpr = (0u8..FACTORS.len() as u8, vec(dynamic::op_strategy(false), 5..=maxlen))
             .prop_map(|(factor, ops)| BoundCase::DynamicPr(DynCase { kind: DynKind::Pr, factor, ops, groups: 1 }));
         let script = crate::checks::config::Config.small_strategy(tier).prop_map(BoundCase::Script);
-        prop_oneof![70 => stat, 15 => dynpr, 15 => script].boxed()
+        prop_oneof![70 => stat, 15 => dynpr, 15 => script, 2 => medium].boxed()
     }
     fn n_cases(&self, tier: Tier) -> u32 {
         tier.pick(300_000, 5_000_000)
